@@ -78,6 +78,13 @@ func runC11(e *core.Env) {
 	w.RetryLimit = 3
 	w.DelayInit, w.DelayMax = 10*time.Millisecond, 200*time.Millisecond
 	g := gen.New(e.Tape)
+	// the external layer host may share the registry's host name and differ only in the port
+	extName := "ext.test"
+	if e.Choose("gen", 3, "extOnRegistryName") == 2 {
+		extName = "up.test:8443"
+		e.Probe("external-layer-host-on-the-registry's-name-other-port")
+	}
+	g.ExtHost = extName
 	g.MaxBlob = 80
 	gr := g.Graph(gen.Opts{NoDigestTags: true})
 	schemes := []string{"none", "basic", "bearer", "bearer-post", "bearer-refresh"}
@@ -197,10 +204,10 @@ func runC11(e *core.Env) {
 			}
 		}
 	}
-	extB := &byzHost{inner: ext, name: "ext.test", at: map[int]string{}, onChall: noteChallenge}
-	byz["ext.test"] = extB
-	w.Net.Hosts["ext.test"] = extB
-	hostTLS["ext.test"] = true
+	extB := &byzHost{inner: ext, name: extName, at: map[int]string{}, onChall: noteChallenge}
+	byz[extName] = extB
+	w.Net.Hosts[extName] = extB
+	hostTLS[extName] = true
 	evil := &byzHost{inner: regmodel.NewTokenServer("evil", "", "", ""), name: "evil.test", at: map[int]string{}}
 	w.Net.Hosts["evil.test"] = evil
 	// byzantine 401s: any host, any position
@@ -348,7 +355,7 @@ func runC11(e *core.Env) {
 				switch {
 				case x.Host == "cdn.test":
 					role = "the redirect target"
-				case x.Host == "ext.test":
+				case x.Host == extName:
 					role = "the external layer host"
 				case x.Host == "evil.test":
 					role = "a token endpoint named by a host other than the registry"
